@@ -19,7 +19,8 @@ def sh(cmd, cwd=None, env=None, timeout=3600):
 def main():
     prop, wt = sys.argv[1], sys.argv[2]
     checks = sys.argv[3:] or [prop]
-    env = dict(os.environ, CARGO_TARGET_DIR=f"/tmp/wt2/target-{prop}", CARGO_NET_OFFLINE="true")
+    scratch = os.path.dirname(wt.rstrip("/"))
+    env = dict(os.environ, CARGO_TARGET_DIR=f"{scratch}/target-{prop}", CARGO_NET_OFFLINE="true")
     for d in sorted(glob.glob(os.path.join(wt, "_seeded", "*"))):
         name = os.path.basename(d)
         patch = os.path.join(d, "patch.diff")
@@ -35,7 +36,7 @@ def main():
         rc, out = sh("cargo test --workspace --no-fail-fast --offline 2>&1 | grep -E '^test result|FAILED|^error' ", cwd=wt, env=env)
         res["suite_passes_with_patch"] = ("FAILED" not in out and "failed; " in out and all(" 0 failed" in l for l in out.splitlines() if l.startswith("test result")) and "error" not in out)
         if demo.endswith(".sh"):
-            run_demo = lambda: sh(f"bash {demo} {wt} > /tmp/wt2/demo_out.txt 2>&1; echo DEMO_RC=$?", cwd=wt, env=env)
+            run_demo = lambda: sh(f"bash {demo} {wt} > /tmp/demo_out.txt 2>&1; echo DEMO_RC=$?", cwd=wt, env=env)
             _, out1 = run_demo()
             res["demo_fails_with_patch"] = "DEMO_RC=0" not in out1
             sh("git checkout -- src Cargo.toml", cwd=wt)
@@ -67,7 +68,8 @@ def main():
         res["confirmed"] = confirmed
         print(json.dumps({k: res[k] for k in ("name", "suite_passes_with_patch", "demo_fails_with_patch", "demo_passes_without_patch", "caught_by")}))
         if confirmed:
-            dst = f"{SEEDED_OUT}/{prop}-r2-{name}" if "/wt2/" in wt else f"{SEEDED_OUT}/{prop}-{name}"
+            rnd = "r2-" if "/wt2/" in wt else ("r3-" if "/wt3/" in wt else ("r4-" if "/wt4/" in wt else ""))
+            dst = f"{SEEDED_OUT}/{prop}-{rnd}{name}"
             os.makedirs(dst, exist_ok=True)
             shutil.copy(patch, os.path.join(dst, "patch.diff"))
             shutil.copy(demo, os.path.join(dst, os.path.basename(demo)))
